@@ -408,3 +408,204 @@ pub fn leaf_defs() -> String {
     s.push_str(&serde_struct("Fail", &[("msg".into(), "String".into())]));
     s
 }
+
+// ---------------------------------------------------------------------------------------------
+// Binding the reference denotation to real serde: the `ttv-samples` crate (GENERATED from the list
+// below by `ttv gen-fixtures`) builds values of each listed type and serialises them with
+// serde_json; selftest checks every such value against `shape::denote` of the same type.
+// ---------------------------------------------------------------------------------------------
+
+fn hashable(t: &RTy) -> bool {
+    match t {
+        RTy::Prim(p) => p != "f32" && p != "f64",
+        RTy::Named(_) => true,
+        RTy::HashMap(..) | RTy::HashSet(_) => false,
+        RTy::Ref(a) | RTy::Option(a) | RTy::Vec(a) | RTy::BTreeSet(a) | RTy::Result1(a) => hashable(a),
+        RTy::BTreeMap(a, b) | RTy::Result2(a, b) => hashable(a) && hashable(b),
+        RTy::Tuple(ts) => ts.iter().all(hashable),
+    }
+}
+
+/// Can a value of this type be built and serialised by the samples crate? (no references, no
+/// Result - the property defines Result<T, E> as T because Tauri unwraps it, serde alone does not -,
+/// set elements and map keys must be Hash + Ord)
+pub fn serde_bindable(t: &RTy) -> bool {
+    match t {
+        RTy::Prim(p) => p != "str" && p != "&str",
+        RTy::Named(n) => n == "Item" || n == "Kind",
+        RTy::Ref(_) | RTy::Result1(_) | RTy::Result2(..) => false,
+        RTy::Option(a) | RTy::Vec(a) => serde_bindable(a),
+        RTy::HashSet(a) | RTy::BTreeSet(a) => serde_bindable(a) && hashable(a),
+        RTy::HashMap(k, v) | RTy::BTreeMap(k, v) => serde_bindable(k) && hashable(k) && serde_bindable(v),
+        RTy::Tuple(ts) => !ts.is_empty() && ts.len() <= 4 && ts.iter().all(serde_bindable),
+    }
+}
+
+/// The types whose denotation is bound to serde: every unary constructor over every leaf, the
+/// binary constructors over pairs of eight leaves, and every constructor position to depth 2 over
+/// five leaves.
+pub fn binding_types() -> Vec<RTy> {
+    let mut leaves: Vec<RTy> = vec![RTy::prim("String"), RTy::prim("bool"), RTy::prim("()")];
+    leaves.extend(NUMERIC_PRIMS.iter().map(|p| RTy::prim(p)));
+    leaves.push(RTy::named("Item"));
+    leaves.push(RTy::named("Kind"));
+    let mut all: Vec<RTy> = leaves.clone();
+    let b = |t: &RTy| Box::new(t.clone());
+    for a in &leaves {
+        all.extend([RTy::Option(b(a)), RTy::Vec(b(a)), RTy::HashSet(b(a)), RTy::BTreeSet(b(a)), RTy::Tuple(vec![a.clone()])]);
+    }
+    let eight = [RTy::prim("String"), RTy::prim("i32"), RTy::prim("u8"), RTy::prim("bool"), RTy::prim("()"), RTy::prim("f64"), RTy::named("Item"), RTy::named("Kind")];
+    for a in &eight {
+        for c in &eight {
+            all.extend([RTy::HashMap(b(a), b(c)), RTy::BTreeMap(b(a), b(c)), RTy::Tuple(vec![a.clone(), c.clone()])]);
+        }
+    }
+    all.extend(enumerate_spines(&[RTy::prim("String"), RTy::named("Item"), RTy::named("Kind"), RTy::prim("f64"), RTy::prim("()")], &[RTy::prim("i32")], 2));
+    all.retain(serde_bindable);
+    let mut seen = std::collections::HashSet::new();
+    all.retain(|t| seen.insert(t.clone()));
+    all.sort_by_key(|t| (t.depth(), t.to_rust().len(), t.to_rust()));
+    all
+}
+
+pub fn samples_source() -> String {
+    let mut s = String::from(
+        r#"//! GENERATED by `ttv gen-fixtures` - do not edit. Real serde values for the types whose reference
+//! denotation the harness binds to serde (see harness/src/gen.rs binding_types).
+#![allow(dead_code, clippy::all)]
+use serde::Serialize;
+use std::collections::{BTreeMap, BTreeSet, HashMap, HashSet};
+use std::hash::Hash;
+
+#[derive(Debug, Clone, Serialize, PartialEq, Eq, Hash, PartialOrd, Ord)]
+pub struct Item {
+    pub id: i32,
+}
+#[derive(Debug, Clone, Serialize, PartialEq, Eq, Hash, PartialOrd, Ord)]
+pub enum Kind {
+    Alpha,
+    Beta,
+}
+
+pub trait Sample: Sized {
+    fn samples() -> Vec<Self>;
+}
+impl Sample for String {
+    fn samples() -> Vec<Self> {
+        vec!["s".to_string(), String::new()]
+    }
+}
+impl Sample for bool {
+    fn samples() -> Vec<Self> {
+        vec![true, false]
+    }
+}
+impl Sample for () {
+    fn samples() -> Vec<Self> {
+        vec![()]
+    }
+}
+macro_rules! int_samples {
+    ($($t:ty),*) => { $(impl Sample for $t { fn samples() -> Vec<Self> { vec![0, 1, <$t>::MAX] } })* };
+}
+int_samples!(i8, i16, i32, i64, i128, isize, u8, u16, u32, u64, u128, usize);
+impl Sample for f32 {
+    fn samples() -> Vec<Self> {
+        vec![0.5, -2.0]
+    }
+}
+impl Sample for f64 {
+    fn samples() -> Vec<Self> {
+        vec![0.5, -2.0]
+    }
+}
+impl Sample for Item {
+    fn samples() -> Vec<Self> {
+        vec![Item { id: 1 }, Item { id: -7 }]
+    }
+}
+impl Sample for Kind {
+    fn samples() -> Vec<Self> {
+        vec![Kind::Alpha, Kind::Beta]
+    }
+}
+impl<T: Sample> Sample for Option<T> {
+    fn samples() -> Vec<Self> {
+        let mut v = vec![None];
+        v.extend(T::samples().into_iter().map(Some));
+        v
+    }
+}
+impl<T: Sample> Sample for Vec<T> {
+    fn samples() -> Vec<Self> {
+        vec![vec![], T::samples()]
+    }
+}
+impl<T: Sample + Eq + Hash> Sample for HashSet<T> {
+    fn samples() -> Vec<Self> {
+        vec![HashSet::new(), T::samples().into_iter().collect()]
+    }
+}
+impl<T: Sample + Ord> Sample for BTreeSet<T> {
+    fn samples() -> Vec<Self> {
+        vec![BTreeSet::new(), T::samples().into_iter().collect()]
+    }
+}
+impl<K: Sample + Eq + Hash, V: Sample + Clone> Sample for HashMap<K, V> {
+    fn samples() -> Vec<Self> {
+        let vs = V::samples();
+        vec![HashMap::new(), K::samples().into_iter().enumerate().map(|(i, k)| (k, vs[i % vs.len()].clone())).collect()]
+    }
+}
+impl<K: Sample + Ord, V: Sample + Clone> Sample for BTreeMap<K, V> {
+    fn samples() -> Vec<Self> {
+        let vs = V::samples();
+        vec![BTreeMap::new(), K::samples().into_iter().enumerate().map(|(i, k)| (k, vs[i % vs.len()].clone())).collect()]
+    }
+}
+fn first_last<T: Sample + Clone>() -> (T, T) {
+    let v = T::samples();
+    (v[0].clone(), v[v.len() - 1].clone())
+}
+impl<A: Sample + Clone> Sample for (A,) {
+    fn samples() -> Vec<Self> {
+        let a = first_last::<A>();
+        vec![(a.0,), (a.1,)]
+    }
+}
+impl<A: Sample + Clone, B: Sample + Clone> Sample for (A, B) {
+    fn samples() -> Vec<Self> {
+        let (a, b) = (first_last::<A>(), first_last::<B>());
+        vec![(a.0, b.0), (a.1, b.1)]
+    }
+}
+impl<A: Sample + Clone, B: Sample + Clone, C: Sample + Clone> Sample for (A, B, C) {
+    fn samples() -> Vec<Self> {
+        let (a, b, c) = (first_last::<A>(), first_last::<B>(), first_last::<C>());
+        vec![(a.0, b.0, c.0), (a.1, b.1, c.1)]
+    }
+}
+impl<A: Sample + Clone, B: Sample + Clone, C: Sample + Clone, D: Sample + Clone> Sample for (A, B, C, D) {
+    fn samples() -> Vec<Self> {
+        let (a, b, c, d) = (first_last::<A>(), first_last::<B>(), first_last::<C>(), first_last::<D>());
+        vec![(a.0, b.0, c.0, d.0), (a.1, b.1, c.1, d.1)]
+    }
+}
+
+/// serde_json's rendering of every sample (None: serde_json refuses the value, e.g. a map key that
+/// is not string-like or a 128-bit number outside the 64-bit range)
+fn json_of<T: Sample + Serialize>() -> Vec<Option<serde_json::Value>> {
+    T::samples().iter().map(|v| serde_json::to_value(v).ok()).collect()
+}
+
+/// (Rust type text, serialised samples)
+pub fn table() -> Vec<(String, Vec<Option<serde_json::Value>>)> {
+    let mut t: Vec<(String, Vec<Option<serde_json::Value>>)> = Vec::new();
+"#,
+    );
+    for ty in binding_types() {
+        s.push_str(&format!("    t.push(({:?}.to_string(), json_of::<{}>()));\n", ty.to_rust(), ty.to_rust()));
+    }
+    s.push_str("    t\n}\n");
+    s
+}
